@@ -191,6 +191,103 @@ def _describe(o) -> Optional[Instance]:
     return None
 
 
+def collect_compounds():
+    """tuple-valued codecs built from quantisers / fixed-point elements (Vector3U16, Vector4U8, FixedPointVector3U16, ...) and the
+    PackedQuat adapters around them, found by the same reflective walk: [(path, spec object, element prim format, n elems)]"""
+    import hippolyzer.lib.base.serialization as se
+    found = {}
+
+    def describe(o):
+        inner = o._child_spec if isinstance(o, se.PackedQuat) else o
+        if isinstance(inner, type) or not isinstance(inner, se.EncodedTupleCoord):
+            return None
+        specs = getattr(inner, "_elem_specs", None)
+        if not specs or not all(isinstance(x, (se.QuantizedFloatBase, se.FixedPoint)) for x in specs):
+            return None
+        prim = inner.ELEM_SPEC
+        fmt = {(0, 255): "B", (-128, 127): "b", (0, 65535): "H", (-32768, 32767): "h"}[(prim.min_val, prim.max_val)]
+        key = (type(o).__name__, type(inner).__name__, fmt, len(specs),
+               tuple((type(x).__name__, getattr(x, "lower", None), getattr(x, "upper", None), getattr(x, "_frac_bits", None),
+                      getattr(x, "_signed", None)) for x in specs))
+        return key, (o, fmt, len(specs))
+
+    for path, o in _walk_live():
+        try:
+            d = describe(o)
+        except Exception:
+            d = None
+        if d is not None and d[0] not in found:
+            found[d[0]] = (path,) + d[1]
+    return [found[k] for k in sorted(found, key=repr)]
+
+
+def _walk_live():
+    """yields (path, object) for every object reachable from the registered serializers + module globals (same traversal
+    as collect_instances, without stopping at quantisers)"""
+    import hippolyzer.lib.base.serialization as se
+    mods = _import_all()
+    seen = set()
+    stack: List[Tuple[str, Any]] = []
+    for key, ser in sorted(se.SUBFIELD_SERIALIZERS.items(), key=lambda kv: tuple(map(str, kv[0]))):
+        stack.append(("subfield:" + ".".join(map(str, key)), ser))
+    for m in mods:
+        for n in sorted(vars(m)):
+            if n.startswith("__"):
+                continue
+            stack.append((m.__name__.split(".")[-1] + "." + n, getattr(m, n)))
+    stack.reverse()
+    budget = 2_000_000
+
+    def ours(t) -> bool:
+        return getattr(t, "__module__", "").startswith("hippolyzer")
+
+    while stack:
+        path, o = stack.pop()
+        budget -= 1
+        if budget < 0:
+            raise RuntimeError("object walk exceeded its budget")
+        if o is None or isinstance(o, (int, float, str, bytes, bool, complex)):
+            continue
+        if id(o) in seen:
+            continue
+        seen.add(id(o))
+        yield path, o
+        children: List[Tuple[str, Any]] = []
+        if isinstance(o, dict):
+            for k2, v in o.items():
+                children.append((path + "[%r]" % (k2,), v))
+        elif isinstance(o, (list, tuple, set, frozenset)):
+            for i, v in enumerate(o):
+                children.append((path + "[%d]" % i, v))
+        elif isinstance(o, dataclasses.Field):
+            children.append((path + ".metadata", dict(o.metadata)))
+        elif isinstance(o, type):
+            if ours(o):
+                for n, v in list(vars(o).items()):
+                    if n.startswith("__") and n not in ("__dataclass_fields__",):
+                        continue
+                    children.append((path + "." + n, v))
+        elif ours(type(o)):
+            if isinstance(o, se.ForwardSerializable):
+                try:
+                    o._ensure_evaled()
+                except Exception:
+                    pass
+            d = getattr(o, "__dict__", None)
+            if isinstance(d, dict):
+                for n, v in list(d.items()):
+                    children.append((path + "." + n, v))
+            for k3 in type(o).__mro__:
+                for n in getattr(k3, "__slots__", ()) or ():
+                    if isinstance(n, str) and hasattr(o, n):
+                        try:
+                            children.append((path + "." + n, getattr(o, n)))
+                        except Exception:
+                            pass
+        for c in reversed(children):
+            stack.append(c)
+
+
 def collect_instances() -> List[Instance]:
     """reflective walk from the registered serializers + module globals"""
     import hippolyzer.lib.base.serialization as se
